@@ -22,7 +22,7 @@ which compares the model that the generated code is proved equal to with the imp
 * pandas: `pd.Series(x)` of a 1-D array holds its values in order; `s.mask(m)` replaces the flagged
   entries by NaN and raises `ValueError` when the lengths differ; `pd.DataFrame(d)` of a dict whose
   values all have the same length has the dict's keys as columns in insertion order with those
-  values (`C17Gen_frames_rectangular`: that is the only case that arises from a well-formed geff);
+  values (`GeffProps.C17Gen.C17Gen_rows`: that is the only case that arises from a well-formed geff);
   `df.to_csv(path, mode="x")` raises `FileExistsError` when `path` exists and otherwise creates it,
   `mode="w"` creates or truncates; the text written is a function of the frame and of `index=`
   (`CsvEnv.csvText`, uninterpreted);
